@@ -563,4 +563,15 @@ theorem relayPhase_poisoned (cfg : Cfg) (f : Front) (u : Script) (hp : f.st.pois
   have hle : f.T ≤ max f.T u.finT := by omega
   simp [hp, dirNatural_poisoned, dirNatural_clean, hle, resolve]
 
+/-! ### small bridges used by the property theorems -/
+
+theorem relayPhase_eq (cfg : Cfg) (c u : Script) (h : (front cfg c).kind = .relay) :
+    conn cfg c u = relayPhase cfg (front cfg c) u := by
+  unfold conn; simp [h]
+
+theorem clean_of_eof (cfg : Cfg) (c : Script) (h : c.fin = .eof) : (front cfg c).st.poisoned = false := by
+  cases hp : (front cfg c).st.poisoned with
+  | false => rfl
+  | true => have := ((front_spec cfg c).poison hp).1; simp [h] at this
+
 end DaeVerif.C05
